@@ -96,3 +96,12 @@ Definition validate_membername (mem : str) : outcome unit :=
 (* wrapper_types.rs: ObjectPath::new(path): validate_object_path(path.as_ref())?; Ok(ObjectPath(path)) *)
 Definition objectpath_new (path : str) : outcome str :=
   do _ <- validate_object_path path; Ok path.
+
+(* wrapper_types.rs: impl TryFrom<&'a str> for ObjectPath<&'a str>: fn try_from(value) { ObjectPath::<&'a str>::new(value) } *)
+Definition objectpath_try_from_str (value : str) : outcome str := objectpath_new value.
+
+(* wrapper_types.rs: impl TryFrom<String> for ObjectPath<String>: fn try_from(value) { ObjectPath::<String>::new(value) } *)
+Definition objectpath_try_from_string (value : str) : outcome str := objectpath_new value.
+
+(* wrapper_types.rs: ObjectPath::to_owned(&self): ObjectPath(self.as_ref().to_owned()), no validation *)
+Definition objectpath_to_owned (p : str) : str := p.
